@@ -87,6 +87,10 @@ CHECKS = {
    technique="bounded-exhaustive structural and byte-level enumeration of configuration texts derived from the shipped examples and a full-grammar skeleton, through the real loader (panic hook, overflow checks, watchdog); every accepted text is then served by the real handlers (DHCP, ACL, RA builder/serialiser, live DNS service for route variants)",
    text="Every node of every skeleton document is replaced by 21 wrong-type/boundary values, every scalar by 12 duration shapes and case/spelling variants, every prefix-shaped scalar by every prefix length x 6 address forms, every entry removed or its key misspelt; every offset of the shipped texts is deleted or overwritten with each structural octet. The loader must return Ok or a non-empty Err; each accepted configuration is served (DISCOVER+REQUEST from 4 receiving addresses x 3 clients, 20 ACL decisions, RA per interface, one query per changed DNS route on the live service) without a panic.",
    note="Texts implying an IPv4 pool over 2^20 addresses at load time are not loaded and pools over 2^20 are not served (memory exhaustion aborts, not claimed). A 60 s watchdog reports non-termination."),
+ "C11": dict(level="exploration", engine="E-ENUM", design="5/C11",
+   technique="bounded-exhaustive enumeration of policy trees (all trees of depth <=2 / width <=2, depth-3 chains, width-3 sibling lists over a 7-condition alphabet; override chains over a 7-value apply alphabet) x requests, through the real YAML loader and the real handle_pkt, compared with an independent model of erbium.conf(5)",
+   text="Each configuration is loaded by the real loader and asked with every request of the request alphabet (receiving address x hardware address x host name x parameter list x interface mtu/router); the reply's option map must equal the model's (first applying sibling, AND of conditions, condition-less policy applies iff a sub-policy does, outer then inner, null unsets, parameter-list gating, top-level and interface defaults with $self4).",
+   note="Marker options per depth make the applied node observable. Options 53/54/51, an empty search list sent empty vs absent, and netmask/broadcast under two different match-subnets are don't-care."),
 }
 
 NOT_YET = {
